@@ -1,0 +1,141 @@
+//! Verification hooks (only compiled with `--cfg libp2p_verif`).
+//!
+//! Thin visibility shims over crate-private items; no logic under test is re-implemented here.
+
+use std::{
+    collections::{HashMap, HashSet},
+    num::NonZeroU8,
+    time::Duration,
+};
+
+use futures::{FutureExt, future::BoxFuture};
+use libp2p_core::{Multiaddr, muxing::StreamMuxerBox, transport::TransportError};
+use libp2p_identity::PeerId;
+
+use crate::{
+    StreamProtocol,
+    connection::{
+        AsStrHashEq,
+        pool::{
+            concurrent_dial::{ConcurrentDial, PendingDial, SmartDial},
+            dial_ranker,
+        },
+    },
+    handler::ProtocolsChange,
+};
+
+pub type DialFuture = BoxFuture<
+    'static,
+    (
+        Multiaddr,
+        Result<(PeerId, StreamMuxerBox), TransportError<std::io::Error>>,
+    ),
+>;
+
+pub type DialResult = Result<
+    (
+        Multiaddr,
+        (PeerId, StreamMuxerBox),
+        Vec<(Multiaddr, TransportError<std::io::Error>)>,
+    ),
+    Vec<(Multiaddr, TransportError<std::io::Error>)>,
+>;
+
+/// Calls the real `rank_dials` over dials whose futures never resolve.
+pub fn rank_dials(addrs: Vec<Multiaddr>) -> Vec<(Duration, Multiaddr)> {
+    let dials = addrs
+        .into_iter()
+        .map(|addr| PendingDial {
+            addr,
+            fut: futures::future::pending().boxed(),
+        })
+        .collect();
+    dial_ranker::rank_dials(dials)
+        .into_iter()
+        .map(|(d, p)| (d, p.addr))
+        .collect()
+}
+
+fn pending_dials(dials: Vec<(Multiaddr, DialFuture)>) -> Vec<PendingDial> {
+    dials
+        .into_iter()
+        .map(|(addr, fut)| PendingDial { addr, fut })
+        .collect()
+}
+
+/// The real `ConcurrentDial` future over caller-supplied dial futures.
+pub fn concurrent_dial(
+    dials: Vec<(Multiaddr, DialFuture)>,
+    concurrency_factor: NonZeroU8,
+) -> BoxFuture<'static, DialResult> {
+    ConcurrentDial::new(pending_dials(dials), concurrency_factor).boxed()
+}
+
+/// The real `SmartDial` future over caller-supplied dial futures.
+pub fn smart_dial(dials: Vec<(Multiaddr, DialFuture)>) -> BoxFuture<'static, DialResult> {
+    SmartDial::new(pending_dials(dials)).boxed()
+}
+
+/// The local-protocol bookkeeping of a `Connection`: the same map type, fed through the real
+/// `from_initial_protocols` / `from_full_sets`.
+pub struct LocalProtocols {
+    map: HashMap<AsStrHashEq<String>, bool>,
+    buffer: Vec<StreamProtocol>,
+}
+
+impl LocalProtocols {
+    /// Mirrors `Connection::new`: returns the initial `Added` notification (if any).
+    pub fn new(initial: Vec<String>) -> (Self, Option<Vec<String>>) {
+        let map: HashMap<AsStrHashEq<String>, bool> =
+            initial.into_iter().map(|p| (AsStrHashEq(p), true)).collect();
+        let mut buffer = Vec::new();
+        let mut first = None;
+        if !map.is_empty() {
+            if let ProtocolsChange::Added(a) =
+                ProtocolsChange::from_initial_protocols(map.keys().map(|e| &e.0), &mut buffer)
+            {
+                first = Some(a.map(|p| p.as_ref().to_owned()).collect());
+            }
+        }
+        (Self { map, buffer }, first)
+    }
+
+    /// Mirrors the tail of `Connection::poll`: returns the changes as `(is_added, names)`.
+    pub fn update(&mut self, new: Vec<String>) -> Vec<(bool, Vec<String>)> {
+        ProtocolsChange::from_full_sets(&mut self.map, new, &mut self.buffer)
+            .into_iter()
+            .map(|c| match c {
+                ProtocolsChange::Added(a) => (true, a.map(|p| p.as_ref().to_owned()).collect()),
+                ProtocolsChange::Removed(r) => (false, r.map(|p| p.as_ref().to_owned()).collect()),
+            })
+            .collect()
+    }
+}
+
+/// Mirrors `Connection::poll` for `ReportRemoteProtocols(Added)`, including the `extend`.
+pub fn remote_add(
+    existing: &mut HashSet<StreamProtocol>,
+    to_add: HashSet<StreamProtocol>,
+) -> Option<Vec<StreamProtocol>> {
+    let mut buffer = Vec::new();
+    let out = ProtocolsChange::add(existing, to_add, &mut buffer).map(|c| match c {
+        ProtocolsChange::Added(a) => a.cloned().collect::<Vec<_>>(),
+        ProtocolsChange::Removed(r) => r.cloned().collect::<Vec<_>>(),
+    });
+    if out.is_some() {
+        existing.extend(buffer.drain(..));
+    }
+    out
+}
+
+/// Mirrors `Connection::poll` for `ReportRemoteProtocols(Removed)`.
+pub fn remote_remove(
+    existing: &mut HashSet<StreamProtocol>,
+    to_remove: HashSet<StreamProtocol>,
+) -> Option<Vec<StreamProtocol>> {
+    let mut buffer = Vec::new();
+    ProtocolsChange::remove(existing, to_remove, &mut buffer).map(|c| match c {
+        ProtocolsChange::Added(a) => a.cloned().collect::<Vec<_>>(),
+        ProtocolsChange::Removed(r) => r.cloned().collect::<Vec<_>>(),
+    })
+}
